@@ -198,12 +198,33 @@ func execTicket(in KV) string {
 	}
 	rr := &recReader{r: NewRng(in.U64("st") ^ 0x5eed)}
 	cfgE := &tls.Config{Rand: rr}
-	cfgE.SetSessionTicketKeys(seedsE)
 	cfgD := &tls.Config{}
-	cfgD.SetSessionTicketKeys(seedsD)
-
 	fields := genSessionFields(NewRng(in.U64("st")), in["kind"])
 	ss := tls.VerifMakeSessionState(fields)
+	// leg=1/2: a user-set legacy Config.SessionTicketKey is present on both Configs before
+	// SetSessionTicketKeys; with leg=1 it has also been used (its derived key got installed and
+	// sealed a ticket) — afterwards only the explicitly set keys may seal and open.
+	leg := in["leg"]
+	var legacy [32]byte
+	var legacyTicket []byte
+	lk := "-"
+	if leg == "1" || leg == "2" {
+		copy(legacy[:], kr.Bytes(32))
+		legacy[0] |= 1
+		cfgE.SessionTicketKey = legacy
+		cfgD.SessionTicketKey = legacy
+		if leg == "1" {
+			var ks []string
+			for _, k := range tls.VerifTicketKeys(cfgE) {
+				ks = append(ks, hx(k.AesKey[:])+":"+hx(k.HmacKey[:]))
+			}
+			lk = joinList(ks)
+			legacyTicket, _ = cfgE.EncryptTicket(tls.ConnectionState{}, ss)
+			tls.VerifTicketKeys(cfgD)
+		}
+	}
+	cfgE.SetSessionTicketKeys(seedsE)
+	cfgD.SetSessionTicketKeys(seedsD)
 	sb, err := ss.Bytes()
 	if err != nil {
 		return "out=bytes-err"
@@ -268,8 +289,20 @@ func execTicket(in KV) string {
 			dp = append(dp, ctrXor(h[16:32], t2[:16], auth[16:]))
 		}
 	}
-	return fmt.Sprintf("out=ok sb=%s iv=%s t=%s dec=%s feq=%s ks=%s kd=%s h=%s hd=%s ik=%s pk=%s ct=%s tag=%s dm=%s dp=%s",
-		hx(sb), hx(iv), hx(ticket), dec, feq, joinList(ks), joinList(kd), joinList(hs), joinList(hd), joinList(ik), joinList(pk),
+	ldec := "-"
+	lh := "-"
+	if leg == "1" {
+		ldec = "nil"
+		if s3, err := cfgE.DecryptTicket(legacyTicket, tls.ConnectionState{}); err != nil {
+			ldec = "err"
+		} else if s3 != nil {
+			ldec = "state"
+		}
+		h := sha512.Sum512(legacy[:])
+		lh = hx(legacy[:]) + ":" + hx(h[:])
+	}
+	return fmt.Sprintf("out=ok ldec=%s lk=%s lh=%s sb=%s iv=%s t=%s dec=%s feq=%s ks=%s kd=%s h=%s hd=%s ik=%s pk=%s ct=%s tag=%s dm=%s dp=%s",
+		ldec, lk, lh, hx(sb), hx(iv), hx(ticket), dec, feq, joinList(ks), joinList(kd), joinList(hs), joinList(hd), joinList(ik), joinList(pk),
 		hx(ct), hx(tag), hexJoin(dm), hexJoin(dp))
 }
 
@@ -413,7 +446,11 @@ func init() {
 					mut = fmt.Sprintf("flip:%d", 65536-(i-299)) // wraps into the tail (tag) region
 				}
 			}
-			return fmt.Sprintf("keys=%d kseed=%d st=%d kind=%s mut=%s rot=%s", 1+r.Intn(3), r.U64()>>1, r.U64()>>1, kind, mut, rot)
+			leg := Pick(r, []string{"0", "0", "0", "1", "2"})
+			if i < 400 {
+				leg = "0"
+			}
+			return fmt.Sprintf("keys=%d kseed=%d st=%d kind=%s mut=%s rot=%s leg=%s", 1+r.Intn(3), r.U64()>>1, r.U64()>>1, kind, mut, rot, leg)
 		},
 		Exec: execTicket,
 	})
